@@ -195,8 +195,11 @@ class Checker:
             self.log_msg("Could not locate torrent content %s.", path)
             raise FileNotFoundError(path)
 
-        # "." and "dir/." have no usable last component until made absolute
-        root = Path(os.path.abspath(path))
+        # ".", ".." and "dir/.." have no usable last component: ask the system
+        # where they lead (a lexical answer goes wrong behind a symbolic link)
+        root = Path(path)
+        if root.name in ("", ".", ".."):
+            root = Path(os.path.realpath(path))
         if root.name == self.name:
             self.log_msg("Content found: %s.", str(root))
             return root
